@@ -216,14 +216,43 @@ impl<'a, K: Eq + Hash, V> Drop for TracedRefMut<'a, K, V> {
 /// Methods that are not mirrored here are reached through `Deref`.
 pub struct TracedMap<K: Eq + Hash, V> {
     inner: DashMap<K, V>,
+    /// one key per shard of `inner`: probing them with `try_get(_mut)` tells
+    /// exactly whether an access that needs every shard would block
+    shard_keys: Vec<K>,
 }
 
-impl<K: Eq + Hash + AsRef<[u8]>, V> TracedMap<K, V> {
+impl<K: Eq + Hash + AsRef<[u8]> + From<Vec<u8>>, V> TracedMap<K, V> {
     #[allow(clippy::new_without_default)]
     pub fn new() -> Self {
-        TracedMap {
-            inner: DashMap::new(),
+        let inner: DashMap<K, V> = DashMap::new();
+        // two keys are in the same shard iff holding the entry of one makes
+        // the other report `Locked`
+        let mut shard_keys: Vec<K> = Vec::new();
+        let mut since_new = 0;
+        for i in 0..4000u32 {
+            // every shard has been seen long ago: stop looking
+            if since_new > 400 {
+                break;
+            }
+            since_new += 1;
+            let cand: K = K::from(format!("\u{0}verif-probe-{}", i).into_bytes());
+            let mut known = false;
+            for rep in shard_keys.iter() {
+                let rep2: K = K::from(rep.as_ref().to_vec());
+                if let Some(held) = inner.try_entry(rep2) {
+                    known = inner.try_get(&cand).is_locked();
+                    drop(held);
+                }
+                if known {
+                    break;
+                }
+            }
+            if !known {
+                shard_keys.push(cand);
+                since_new = 0;
+            }
         }
+        TracedMap { inner, shard_keys }
     }
 
     /// Would an access needing the shard of `key` block right now?
@@ -235,16 +264,9 @@ impl<K: Eq + Hash + AsRef<[u8]>, V> TracedMap<K, V> {
         }
     }
 
-    /// Would an access needing every shard block right now?  Exact for the
-    /// guards handed out by this wrapper: readers are only stopped by a live
-    /// exclusive guard, writers by any live guard.
+    /// Would an access needing every shard block right now?
     fn all_blocked(&self, write: bool) -> bool {
-        let (r, w) = all_guards();
-        if write {
-            r + w > 0
-        } else {
-            w > 0
-        }
+        self.shard_keys.iter().any(|k| self.key_blocked(k, write))
     }
 
     pub fn get(&self, key: &K) -> Option<TracedRef<'_, K, V>> {
@@ -344,11 +366,12 @@ impl<K: Eq + Hash + AsRef<[u8]>, V> TracedMap<K, V> {
     }
 }
 
-impl<K: Eq + Hash + Clone + AsRef<[u8]>, V: Clone> Clone for TracedMap<K, V> {
+impl<K: Eq + Hash + Clone + AsRef<[u8]> + From<Vec<u8>>, V: Clone> Clone for TracedMap<K, V> {
     fn clone(&self) -> Self {
         yield_point("map.clone", None, &|| self.all_blocked(false));
         TracedMap {
             inner: self.inner.clone(),
+            shard_keys: self.shard_keys.clone(),
         }
     }
 }
